@@ -219,6 +219,7 @@ class Index:
         self._const_busy: Set[Tuple[str, str]] = set()
         self._mro_cache: Dict[str, List[ClassInfo]] = {}
         self.alpha_renamed: List[Tuple[str, str, str, str]] = []
+        self.compares_mirrored: List[Tuple[str, str, str, str]] = []
         self._load()
 
     # ---------------------------------------------------------------- load
@@ -252,6 +253,8 @@ class Index:
                 # reference names back (alpha-conversion, see sa/alpha.py)
                 self.alpha_renamed.extend(
                     (rel,) + t for t in alpha.normalise(rel, mod.tree))
+                self.compares_mirrored.extend(
+                    (rel,) + t for t in alpha.orient(rel, mod.tree))
                 _set_parents(mod.tree)
                 self.modules[name] = mod
         for mod in self.modules.values():
